@@ -43,6 +43,11 @@ def judge(ctx, cfg, traces):
     for tr in traces:
         ctx.count(1, (tuple(map(tuple, tr["mat"])), _lab(cfg)) if len(tr["frames"]) and len(tr["frames"][-1]) > 1 else None)
     ctx.sample({"config": _lab(cfg), "trace": traces[len(traces) // 2]}, limit=4)
+    if not rej and "selftest_corrupted_trace_rejected" not in ctx.notes and traces[len(traces) // 2]["outcome"] == "ok":
+        def corrupt(tr):
+            tr["frames"][-1][0]["s"] += 1000      # credit the first hypothesis with one more unit of mass
+            return tr
+        ctx.selftest_corrupt("CtcDecoder_Trace", traces[len(traces) // 2], corrupt, constants=consts)
     for idx, prog in rej:
         tr = traces[idx]
         what = C.first_bad_clause(tr, prog, cfg)
